@@ -189,6 +189,125 @@ Proof.
     apply dispatch_spec; [|exact Hp]. unfold st. now apply apply_ops_wf.
 Qed.
 
+Lemma filter_andb {A} (f g : A -> bool) l : filter (fun x => f x && g x) l = filter g (filter f l).
+Proof.
+  induction l as [|a l IH]; [reflexivity|]. cbn [filter].
+  destruct (f a); cbn [andb filter]; [destruct (g a)|]; now rewrite IH.
+Qed.
+
+Lemma nodup_fst_filter {A B} (f : A * B -> bool) l : NoDup (map fst l) -> NoDup (map fst (filter f l)).
+Proof.
+  induction l as [|a l IH]; intros H; [constructor|]. cbn [map] in H.
+  inversion H as [|? ? Hni Hnd]; subst. cbn [filter]. destruct (f a); [|now apply IH].
+  cbn [map]. constructor; [|now apply IH]. intros Hin. apply Hni.
+  apply in_map_iff in Hin as (x & Ex & Hx). apply filter_In in Hx as [Hx _].
+  apply in_map_iff. exists x. now split.
+Qed.
+
+Lemma last_binding_in : forall ns vs k, length ns = length vs -> In k ns ->
+  exists v, last_binding ns vs k None = Some v.
+Proof.
+  induction ns as [|n ns IH]; intros vs k Hl Hin; [destruct Hin|].
+  destruct vs as [|v vs]; [discriminate|]. cbn [last_binding]. cbn in Hl.
+  destruct (str_eqb n k) eqn:E.
+  - rewrite last_binding_acc. destruct (last_binding ns vs k None) as [v'|]; eauto.
+  - apply IH; [lia|]. destruct Hin as [->|Hin]; [|exact Hin].
+    rewrite str_eqb_refl in E. discriminate.
+Qed.
+
+Lemma restrict_is_map names vals m0 : length names = length vals -> NoDup (map fst m0) ->
+  is_map_of names vals (restrict_vars names (vars_map names vals m0)) = true.
+Proof.
+  intros Hl Hnd0.
+  assert (HndM : NoDup (map fst (vars_map names vals m0))) by (now apply vars_map_nodup).
+  unfold is_map_of. rewrite nodup_fix_eq. rewrite !andb_true_iff. split; [split|].
+  - apply forallb_forall. intros [k v] Hin. cbn [fst snd].
+    apply filter_In in Hin as [Hin Hk]. cbn [fst] in Hk.
+    apply existsb_exists in Hk as (n & Hn & En). apply str_eqb_eq in En. subst n.
+    pose proof (vlookup_in _ _ _ HndM Hin) as E. rewrite vars_map_lookup, last_binding_acc in E.
+    destruct (last_binding_in names vals k Hl Hn) as (v' & Ev). rewrite Ev in E |- *.
+    injection E as ->. apply str_eqb_refl.
+  - apply forallb_forall. intros n Hn. apply existsb_exists.
+    assert (Hk : In n (map fst (vars_map names vals m0))) by (apply vars_map_keys; auto).
+    apply in_map_iff in Hk as (kv & Ek & Hkv). exists kv. split; [|rewrite Ek; apply str_eqb_refl].
+    apply filter_In. split; [exact Hkv|]. apply existsb_exists. exists n. split; [exact Hn|].
+    rewrite Ek. apply str_eqb_refl.
+  - apply keys_distinct_nodup. unfold restrict_vars. now apply nodup_fst_filter.
+Qed.
+
+(* the predicate for used RouteParams objects holds on the model's output:
+   every reachable router, every middleware list, every iteration order, every
+   request, every content of the object handed in (a Go map: no key twice);
+   handler identities as the harness uses them: the default handler is not also
+   the handler of a route *)
+Theorem reuse_spec st mws order segs p0 : wf st -> Permutation order (routes_of st) ->
+  NoDup (map fst (rp_map p0)) ->
+  (forall r d, In r (routes_of st) -> st_default st = Some d -> r_h r <> d) ->
+  let path := filter_path (path_of segs) in
+  let out := serve_into st mws order segs p0 in
+  reuse_class (sregs_of st) (st_default st) mws path (fst out) (rp_obs (snd out)) = 0%N.
+Proof.
+  intros Hwf Hp Hnd0 Hids path out. unfold out, serve_into. fold path.
+  destruct (scan order path None O) as [r|] eqn:E; cbn [fst snd].
+  - assert (Hmax : maximal_match (routes_of st) path r) by (apply scan_exact; eauto).
+    destruct Hmax as (Hin & Hm & Hmax).
+    destruct (match_result_vars r path Hm) as (vals & Hex & Hd & Hlen & _).
+    unfold reuse_class. rewrite run_chain_spec.
+    destruct (snd (passing_prefix mws)) eqn:Epass; cbn [negb].
+    2:{ rewrite (spec_trace_block mws (Some (r_h r))) by assumption. now rewrite trace_eqb_refl. }
+    rewrite spec_trace_pass by assumption.
+    assert (Hnn : is_nil path = false) by apply filter_path_nonnil.
+    unfold rp_obs. cbn [match_into rp_path rp_tmpl]. rewrite Hnn, !andb_false_r. rewrite Hex.
+    match goal with |- context [rp_map (mkRp ?a ?b (Some ?m))] => change (rp_map (mkRp a b (Some m))) with m end.
+    rewrite filter_andb. unfold sregs_of. rewrite (filter_unique r _ (wf_pats st Hwf) Hin).
+    cbn [filter]. change (s_h (sroute_of r)) with (r_h r). rewrite Z.eqb_refl.
+    unfold dispatch_class. rewrite (filter_unique r _ (wf_pats st Hwf) Hin).
+    change (s_parts (sroute_of r)) with (r_parts r). change (s_pat (sroute_of r)) with (r_pat r).
+    change (s_h (sroute_of r)) with (r_h r).
+    rewrite spec_matches_iff, Hm. cbn [negb].
+    match goal with |- context [existsb ?f ?l] => destruct (existsb f l) eqn:Eex end.
+    { exfalso. apply existsb_exists in Eex as (x & Hx & Hlt). apply filter_In in Hx as [Hx Hsm].
+      apply in_map_iff in Hx as (r' & <- & Hr'). change (s_parts (sroute_of r')) with (r_parts r') in Hsm.
+      rewrite spec_matches_iff in Hsm. change (s_pat (sroute_of r')) with (r_pat r') in Hlt.
+      apply Nat.ltb_lt in Hlt. specialize (Hmax r' Hr' Hsm). lia. }
+    rewrite str_eqb_refl. cbn [andb].
+    assert (Hv : vars_ok (sroute_of r) path
+                   (restrict_vars (var_names (r_parts r)) (vars_map (var_names (r_parts r)) vals (rp_map p0))) = true).
+    { unfold vars_ok. apply existsb_exists. exists vals. split; [now apply decomps_spec|].
+      apply restrict_is_map; [now symmetry|exact Hnd0]. }
+    rewrite Hv. cbn [negb]. rewrite Epass. rewrite spec_trace_pass by assumption.
+    rewrite Z.eqb_refl. cbn [negb]. now rewrite trace_eqb_refl.
+  - assert (Hno : forall r, In r (routes_of st) -> path_match r path = false).
+    { intros r Hin. eapply scan_none; [exact E|]. eapply Permutation_in; [symmetry|]; eauto. }
+    assert (Hf : filter (fun r => spec_matches (s_parts r) path) (sregs_of st) = []).
+    { unfold sregs_of. now apply filter_nomatch. }
+    cbn [match_into]. unfold reuse_class.
+    destruct (snd (passing_prefix mws)) eqn:Epass; cbn [negb].
+    2:{ destruct (st_default st) as [d|].
+        - rewrite run_chain_spec, (spec_trace_block mws (Some d)) by assumption. now rewrite trace_eqb_refl.
+        - rewrite Hf. cbn [is_nil andb]. now destruct (list_eqb ev_eqb [] (spec_trace mws None)). }
+    assert (Hrouted :
+      match rp_obs p0, handlers_of (match st_default st with Some _ => run_chain mws (st_default st) | None => [] end) with
+      | Some (p, tmpl, vars), [h] =>
+          match filter (fun r => str_eqb (s_pat r) tmpl && (s_h r =? h)) (sregs_of st) with
+          | r :: _ => Some (p, tmpl, restrict_vars (var_names (s_parts r)) vars)
+          | [] => None
+          end
+      | _, _ => None
+      end = None).
+    { destruct (rp_obs p0) as [[[p tmpl] vars]|]; [|reflexivity].
+      destruct (st_default st) as [d|] eqn:Ed; [|reflexivity].
+      rewrite run_chain_spec, spec_trace_pass by assumption.
+      destruct (filter (fun r : sroute => str_eqb (s_pat r) tmpl && (s_h r =? d)) (sregs_of st)) as [|x l] eqn:Ef; [reflexivity|]. exfalso.
+      assert (Hx : In x (x :: l)) by now left. rewrite <- Ef in Hx.
+      apply filter_In in Hx as [Hx Hc]. apply andb_true_iff in Hc as [_ Hh]. apply Z.eqb_eq in Hh.
+      unfold sregs_of in Hx. apply in_map_iff in Hx as (r' & <- & Hr').
+      change (s_h (sroute_of r')) with (r_h r') in Hh. exact (Hids r' d Hr' eq_refl Hh). }
+    rewrite Hrouted.
+    pose proof (dispatch_spec st mws order segs Hwf Hp) as D. cbn zeta in D. unfold serve in D. fold path in D.
+    rewrite E in D. cbn [finish_serve fst snd match_result] in D. exact D.
+Qed.
+
 (* ------------------------------------------------------------------ *)
 (** * fine-grained locking *)
 
